@@ -288,7 +288,7 @@ def run(run):
     run.extra["explanation"] = ("numeric contract: the harness is a sensor measuring every batch item (power, output/input ratio, idempotence, rescale invariance, peak, PAPR, "
                                 "20-dB occupancy) in ppm of the configured limit; the contracts and all exemptions (zero input, negligible power, sparse signals) are operators of "
                                 "Constraints.tla evaluated by TLC. Composition order is discrete: the stage order recorded by forward hooks must equal the declared order.")
-    if not mism and not run.only:
+    if not run.only and not [m for m in mism if m[1] <= 60]:        # the self-test slice (the first 60 events) was accepted
         def corrupt(ev2):
             i = next(i for i, e in enumerate(ev2) if e["ev"] == "Power" and not e["raised"] and not e["zero_input"])
             ev2[i]["power_ppm"] += 5000
